@@ -49,12 +49,19 @@ def gen_system(R, nmax):
     elif fam == "pure":
         # entries confined to a subspace of H: purely imaginary (zero real parts, optionally a
         # tiny leading entry so that pivoting matters) or purely real
-        if R.random() < 0.7:
+        x = R.random()
+        if x < 0.45:
             A = {"gen": "imagq", "m": n, "n": n, "seed": s}
             if R.random() < 0.5:
                 A["tiny00"] = R.choice([1e-3, 1e-6, 1e-9])
-        else:
+        elif x < 0.6:
             A = {"gen": "realq", "m": n, "n": n, "seed": s}
+        else:
+            # any non-empty subset of the four components (a sparse operand then has components
+            # that are entirely empty)
+            mask = R.choice([[1, 0, 0, 1], [1, 1, 0, 0], [1, 0, 1, 0], [0, 0, 0, 1], [0, 1, 0, 0], [0, 0, 1, 1],
+                             [1, 1, 1, 0], [0, 1, 0, 1]])
+            A = {"gen": "maskq", "m": n, "n": n, "seed": s, "mask": mask}
     elif fam == "near_I":
         # c (I + eps G): every cycle reduces the residual by about eps, so the restart
         # residual passes through every decade (what an almost exact preconditioner gives)
